@@ -146,7 +146,7 @@ func (m *DeviceMemoryProperties) MemoryTypeIndexToHeapIndex(memTypeIndex int) in
 func (m *DeviceMemoryProperties) MemoryTypeMinimumAlignment(memTypeIndex int) uint {
 	memTypeFlags := m.memoryProperties.MemoryTypes[memTypeIndex].PropertyFlags
 
-	if (memTypeFlags&core1_0.MemoryPropertyHostVisible | core1_0.MemoryPropertyHostCoherent) == core1_0.MemoryPropertyHostVisible {
+	if memTypeFlags&(core1_0.MemoryPropertyHostVisible|core1_0.MemoryPropertyHostCoherent) == core1_0.MemoryPropertyHostVisible {
 		// Memory is non-coherent
 		alignment := uint(m.deviceProperties.Limits.NonCoherentAtomSize)
 		if alignment < 1 {
